@@ -532,7 +532,7 @@ func mergeNRIResources(u *nri.LinuxResources, orig *nri.LinuxResources) *nri.Lin
 	if u.Cpu == nil {
 		u.Cpu = &nri.LinuxCPU{}
 	}
-	if orig.Cpu != nil {
+	if orig.GetCpu() != nil {
 		if u.Cpu.GetShares().GetValue() == 0 {
 			u.Cpu.Shares = nri.UInt64(orig.Cpu.Shares)
 		}
@@ -553,7 +553,7 @@ func mergeNRIResources(u *nri.LinuxResources, orig *nri.LinuxResources) *nri.Lin
 	if u.Memory == nil {
 		u.Memory = &nri.LinuxMemory{}
 	}
-	if orig.Memory != nil {
+	if orig.GetMemory() != nil {
 		if u.Memory.GetLimit().GetValue() == 0 {
 			u.Memory.Limit = nri.Int64(orig.Memory.Limit)
 		}
